@@ -4,6 +4,7 @@ import (
 	"fmt"
 	"math"
 	"sort"
+	"strings"
 	"testing"
 
 	"github.com/paulmach/orb"
@@ -426,6 +427,10 @@ func genGeom(t *rapid.T, s space, kind string, dist bool, depth int) orb.Geometr
 		return mp
 	case "bound":
 		return genBound(t, s)
+	case "tiny collection", "tiny multipolygon", "tiny mls":
+		return genTiny(t, kind)
+	case "deep collection":
+		return genDeep(t, 1)
 	case "collection":
 		n := rapid.IntRange(1, 4).Draw(t, "members")
 		c := make(orb.Collection, n)
@@ -553,7 +558,7 @@ func genK(t *rapid.T) int {
 	return k
 }
 
-var measureKinds = []string{"ring", "ring", "ring", "ring", "ring", "polygon", "polygon", "polygon", "multipolygon", "multipolygon", "collection", "collection", "bound", "line", "mls", "multipoint", "point"}
+var measureKinds = []string{"deep collection", "deep collection", "tiny collection", "tiny collection", "tiny multipolygon", "tiny mls", "ring", "ring", "ring", "ring", "ring", "polygon", "polygon", "polygon", "multipolygon", "multipolygon", "collection", "collection", "bound", "line", "mls", "multipoint", "point"}
 
 func TestPropMeasure(t *testing.T) {
 	stats.Assume("every coordinate is an integer multiple of 2^-40 with |v| <= 2^21: integer lattices and general-position floats k*2^-40 (no subnormal-range magnitudes, whose squares underflow)")
@@ -561,55 +566,76 @@ func TestPropMeasure(t *testing.T) {
 	stats.Assume("half of the cases are multiplied as a whole (geometry, queries, translation) by 2^k, k in -60..60; all tolerances are relative to the case's own coordinate scale, none is absolute")
 	stats.Assume("the value handed to orb is laid out shared / spare / plain in 40/40/20 % of the cases (internal/layout); the model uses the independent original; after every orb call the whole argument incl. all spare capacity must be bit-identical")
 	stats.Assume("polygon holes lie in distinct quadrants of a rectangle contained in the outer ring (nested, interior-disjoint)")
-	stats.Assume("centroid not asserted where the statement does not define it: zero total area / length / count, collections whose top dimension is below 2 or that contain a clockwise ring")
+	stats.Assume("centroid not asserted where the statement does not define it: zero total area / length / count, collections whose top dimension is below 2 or whose (signed) top-dimensional areas sum to zero")
 	stats.Check(t, 48000, 1500000, func(rt *rapid.T) {
-		s := rapid.SampledFrom(spaces).Draw(rt, "space")
-		kind := rapid.SampledFrom(measureKinds).Draw(rt, "kind")
-		g := genGeom(rt, s, kind, false, 0)
-		c := Case{Op: "measure", G: gen.G{V: g}}
-		if s.lat && rapid.IntRange(0, 3).Draw(rt, "translate") > 0 {
-			c.T = gen.P{gen.F(rapid.IntRange(-s.tlim, s.tlim).Draw(rt, "tx")), gen.F(rapid.IntRange(-s.tlim, s.tlim).Draw(rt, "ty"))}
-		}
-		stats.Class("measure kind:" + kind)
-		stats.Class("space:" + s.name)
-		if r, ok := g.(orb.Ring); ok {
-			if len(r) > 0 && r[0] == r[len(r)-1] {
-				stats.Class("ring spelled:closed")
-			} else {
-				stats.Class("ring spelled:unclosed")
-			}
-			switch a := floatShoelace(r); {
-			case a > 0:
-				stats.Class("ring orientation:ccw")
-			case a < 0:
-				stats.Class("ring orientation:cw")
-			default:
-				stats.Class("ring orientation:zero area")
-			}
-			if isConvex(r) {
-				stats.Class("ring:convex")
-			}
-		}
-		if hasHole(g) {
-			stats.Class("has a polygon with holes")
-		}
-		if mls, ok := g.(orb.MultiLineString); ok && inKnownFamily(mls) {
-			stats.Class("mls:zero-length member next to a positive-length member")
-		}
-		if bigRing(g) || hasHole(g) {
-			stats.NonTrivial(gen.JSON(c))
-			if stats.WantSample("measure " + kind) {
-				stats.Sample("measure "+kind, c)
-			}
-		}
-		c.Layout = rapid.SampledFrom(layouts).Draw(rt, "layout")
-		stats.Class("layout:" + c.Layout)
-		c.K = genK(rt)
-		if !inDomain(c) {
-			rt.Fatalf("harness: generated a case outside the stated domain: %s", gen.JSON(c))
-		}
+		c, _ := drawMeasure(rt)
 		stats.Try(rt, "TestPropMeasure", c, func() error { return checkCase(c) })
 	})
+}
+
+// drawMeasure draws one measure case (and reports whether it is non-trivial by the package's rule).
+func drawMeasure(rt *rapid.T) (Case, bool) {
+	s := rapid.SampledFrom(spaces).Draw(rt, "space")
+	kind := rapid.SampledFrom(measureKinds).Draw(rt, "kind")
+	if strings.HasPrefix(kind, "tiny") || kind == "deep collection" {
+		s = spaces[4] // the |v| <= 8 lattice: tiny shapes ignore the space, the translation uses it
+	}
+	g := genGeom(rt, s, kind, false, 0)
+	c := Case{Op: "measure", G: gen.G{V: g}}
+	if s.lat && rapid.IntRange(0, 3).Draw(rt, "translate") > 0 {
+		c.T = gen.P{gen.F(rapid.IntRange(-s.tlim, s.tlim).Draw(rt, "tx")), gen.F(rapid.IntRange(-s.tlim, s.tlim).Draw(rt, "ty"))}
+	}
+	stats.Class("measure kind:" + kind)
+	stats.Class("space:" + s.name)
+	if r, ok := g.(orb.Ring); ok {
+		if len(r) > 0 && r[0] == r[len(r)-1] {
+			stats.Class("ring spelled:closed")
+		} else {
+			stats.Class("ring spelled:unclosed")
+		}
+		switch a := floatShoelace(r); {
+		case a > 0:
+			stats.Class("ring orientation:ccw")
+		case a < 0:
+			stats.Class("ring orientation:cw")
+		default:
+			stats.Class("ring orientation:zero area")
+		}
+		if isConvex(r) {
+			stats.Class("ring:convex")
+		}
+	}
+	if hasHole(g) {
+		stats.Class("has a polygon with holes")
+	}
+	if mls, ok := g.(orb.MultiLineString); ok && inKnownFamily(mls) {
+		stats.Class("mls:zero-length member next to a positive-length member")
+	}
+	zp := zeroPrefix(g)
+	if zp {
+		stats.Class("accumulation: a proper prefix of the members sums to exactly zero")
+	}
+	dt := deepTop(g)
+	if dt {
+		stats.Class("nesting: a top-dimensional leaf two or more collections below the root")
+	}
+	if _, ok := g.(orb.Collection); ok {
+		stats.Class(fmt.Sprintf("nesting: collections nested %d deep", maxDepth(g)))
+	}
+	nt := bigRing(g) || hasHole(g) || zp || dt
+	c.Layout = rapid.SampledFrom(layouts).Draw(rt, "layout")
+	stats.Class("layout:" + c.Layout)
+	c.K = genK(rt)
+	if nt {
+		stats.NonTrivial(gen.JSON(c))
+		if stats.WantSample("measure " + kind) {
+			stats.Sample("measure "+kind, c)
+		}
+	}
+	if !inDomain(c) {
+		rt.Fatalf("harness: generated a case outside the stated domain: %s", gen.JSON(c))
+	}
+	return c, nt
 }
 
 var distKinds = []string{"line", "line", "ring", "ring", "polygon", "polygon", "mls", "multipolygon", "collection", "multipoint", "bound", "point"}
@@ -682,39 +708,46 @@ func TestPropDistance(t *testing.T) {
 	stats.Assume("distance clause: rings and polygon rings are spelled closed, lines have >= 2 vertices, multi-geometries and collections are non-empty; the index returned for a polygon is not asserted")
 	stats.Assume("query points lie on the same lattice with |v| <= 2^20 (shapes within |v| <= 2^19), or are general-position floats")
 	stats.Check(t, 32000, 900000, func(rt *rapid.T) {
-		s := rapid.SampledFrom(spaces).Draw(rt, "space")
-		kind := rapid.SampledFrom(distKinds).Draw(rt, "kind")
-		g := genGeom(rt, s, kind, true, 0)
-		nq := rapid.IntRange(2, 8).Draw(rt, "nq")
-		c := Case{Op: "distance", G: gen.G{V: g}}
-		nt := false
-		for i := 0; i < nq; i++ {
-			q, qk := genQuery(rt, s, g)
-			c.Q = append(c.Q, gen.FromPt(q))
-			stats.Class("query:" + qk)
-			if nearestInterior(g, q) {
-				nt = true
-				stats.Class("query nearest point:interior to a segment")
-			} else {
-				stats.Class("query nearest point:a vertex")
-			}
-		}
-		stats.Class("distance kind:" + kind)
-		stats.Class("space:" + s.name)
-		if nt || hasHole(g) {
-			stats.NonTrivial(gen.JSON(c))
-			if stats.WantSample("distance " + kind) {
-				stats.Sample("distance "+kind, c)
-			}
-		}
-		c.Layout = rapid.SampledFrom(layouts).Draw(rt, "layout")
-		stats.Class("layout:" + c.Layout)
-		c.K = genK(rt)
-		if !inDomain(c) {
-			rt.Fatalf("harness: generated a case outside the stated domain: %s", gen.JSON(c))
-		}
+		c, _ := drawDistance(rt)
 		stats.Try(rt, "TestPropDistance", c, func() error { return checkCase(c) })
 	})
+}
+
+// drawDistance draws one distance case (and reports whether it is non-trivial).
+func drawDistance(rt *rapid.T) (Case, bool) {
+	s := rapid.SampledFrom(spaces).Draw(rt, "space")
+	kind := rapid.SampledFrom(distKinds).Draw(rt, "kind")
+	g := genGeom(rt, s, kind, true, 0)
+	nq := rapid.IntRange(2, 8).Draw(rt, "nq")
+	c := Case{Op: "distance", G: gen.G{V: g}}
+	nt := false
+	for i := 0; i < nq; i++ {
+		q, qk := genQuery(rt, s, g)
+		c.Q = append(c.Q, gen.FromPt(q))
+		stats.Class("query:" + qk)
+		if nearestInterior(g, q) {
+			nt = true
+			stats.Class("query nearest point:interior to a segment")
+		} else {
+			stats.Class("query nearest point:a vertex")
+		}
+	}
+	stats.Class("distance kind:" + kind)
+	stats.Class("space:" + s.name)
+	nt = nt || hasHole(g)
+	c.Layout = rapid.SampledFrom(layouts).Draw(rt, "layout")
+	stats.Class("layout:" + c.Layout)
+	c.K = genK(rt)
+	if nt {
+		stats.NonTrivial(gen.JSON(c))
+		if stats.WantSample("distance " + kind) {
+			stats.Sample("distance "+kind, c)
+		}
+	}
+	if !inDomain(c) {
+		rt.Fatalf("harness: generated a case outside the stated domain: %s", gen.JSON(c))
+	}
+	return c, nt
 }
 
 func TestPropPoints(t *testing.T) {
@@ -825,8 +858,6 @@ func TestEnumRings(t *testing.T) {
 				twoA, nx, ny := intShoelace(ir)
 				cs := Case{Op: "measure", G: gen.G{V: ring}, Layout: layouts[idx%5]}
 				stats.TryT(t, "TestEnumRings", cs, func() error {
-					curLayout = cs.Layout
-					defer func() { curLayout = "" }()
 					// expectation from the int64 oracle alone
 					m := measure{dim: 2, area: rat(float64(twoA) / 2), scale: maxAbs(ring)}
 					m.tolA, m.errA, m.tolC = ringTol(ring, float64(twoA)/2, [2]float64{})
@@ -849,7 +880,7 @@ func TestEnumRings(t *testing.T) {
 							return fmt.Errorf("harness: the two oracles disagree on %v: %+v vs %+v", ring, mm, m)
 						}
 					}
-					if err := compareMeasure(ring, m, "as given"); err != nil {
+					if err := compareMeasure(cs.Layout, ring, m, "as given"); err != nil {
 						return err
 					}
 					// the same ring rescaled by 2^-40 (every other ring: by 2^35): expectations scale exactly
@@ -864,7 +895,7 @@ func TestEnumRings(t *testing.T) {
 					ms.length = math.Ldexp(m.length, k)
 					ms.scale = math.Ldexp(m.scale, k)
 					ms.tolA, ms.errA, ms.tolC = ringTol(sr, f64(ms.area), ms.c)
-					return compareMeasure(sr, ms, fmt.Sprintf("rescaled by 2^%d", k))
+					return compareMeasure(cs.Layout, sr, ms, fmt.Sprintf("rescaled by 2^%d", k))
 				})
 			}
 		}
